@@ -145,17 +145,19 @@ def check_vcf_e2e(facts, chk, rule, tier):
         (['ACCAGTTGACCAT'], [('a', ['ACCAGCTGACCAT']), ('b', ['ACCAGGTGACCAT']), ('c', ['ACCAGCTGACCAT']), ('d', ['ACCAGTTGACCAT'])]),
         (['ACCAGNTGACCAT', 'ggtaccatg'], [('a', ['ACCAGTTGACCAT', 'GGTACCATG']), ('b', ['GGTTCCATG'])]),
     ]
-    for ref, samples in cases:
+    for ci, (ref, samples) in enumerate(cases):
+        # contig names: c0, c1, .. for most cases; for every third case names whose lexicographic order differs from the file order
+        cnames = None if ci % 3 else ['contig_8', 'contig_10', 'b', 'a'][:len(ref)] if len(ref) <= 4 else None
         for rc in (1, 0):
             for am, rm in ((0, 0), (1, 0), (0, 1)):
                 n += 1
-                want = spec_vcf(ref, samples, k, rc, am, rm)
+                want = spec_vcf(ref, samples, k, rc, am, rm, names=cnames)
                 try:
-                    got, contigs, snames = run_vcf(facts, ref, samples, k, rc, am, rm)
+                    got, contigs, snames = run_vcf(facts, ref, samples, k, rc, am, rm, names=cnames)
                 except Panic as p:
                     bad.append((ref, samples, rc, am, rm, 'panic: %s' % p.kind, None))
                     continue
-                if contigs != ['c%d' % i for i in range(len(ref))] or snames != [x[0] for x in samples]:
+                if contigs != (cnames or ['c%d' % i for i in range(len(ref))]) or snames != [x[0] for x in samples]:
                     bad.append((ref, samples, rc, am, rm, 'header contigs %s samples %s' % (contigs, snames), None))
                 elif got != want:
                     gk = {(r['chrom'], r['pos']) for r in got}
